@@ -803,14 +803,26 @@ func c06Listener(ctx *core.Ctx, server string, dotu bool) core.Result {
 	defer h.done()
 	sock := filepath.Join(ctx.Scratch, fmt.Sprintf("c06-%d.sock", ctx.Index))
 	_ = os.Remove(sock)
-	l, err := net.Listen("unix", sock)
-	if err != nil {
-		res.Inconclusive = "c06: cannot listen on a unix socket: " + err.Error()
-		return res
-	}
 	defer os.Remove(sock)
 	served := make(chan error, 1)
-	go func() { served <- h.s.Srv.StartListener(l) }()
+	if dotu {
+		l, err := net.Listen("unix", sock)
+		if err != nil {
+			res.Inconclusive = "c06: cannot listen on a unix socket: " + err.Error()
+			return res
+		}
+		go func() { served <- h.s.Srv.StartListener(l) }()
+	} else {
+		// the one-call form: the server opens the listening socket itself
+		go func() { served <- h.s.Srv.StartNetListener("unix", sock) }()
+		for i := 0; i < 2000; i++ {
+			if c, err := net.Dial("unix", sock); err == nil {
+				c.Close()
+				break
+			}
+			time.Sleep(time.Millisecond)
+		}
+	}
 	good := func() string {
 		c, err := net.DialTimeout("unix", sock, 5*time.Second)
 		if err != nil {
@@ -875,6 +887,28 @@ func c06Listener(ctx *core.Ctx, server string, dotu bool) core.Result {
 		res.Evals++
 		if e := good(); e != "" {
 			res.Violate("C06;listener-stops-serving;"+server+";"+kind, fmt.Sprintf("after %s the listening server does not serve a new client: %s", kind, e), nil)
+		}
+		if i%7 == 3 {
+			// … nor the library's own client, which dials, negotiates and attaches (go9p.Mount)
+			mounted := make(chan error, 1)
+			go func() {
+				cl, err := go9p.Mount("unix", sock, "", 8192, go9p.OsUsers.Uid2User(0))
+				if err == nil {
+					_, err = cl.Stat(cl.Root)
+					cl.Unmount()
+				}
+				mounted <- err
+			}()
+			select {
+			case err := <-mounted:
+				if err != nil {
+					res.Violate("C06;listener-stops-serving;"+server+";mount", fmt.Sprintf("after %s the library's client cannot mount the listening server: %v", kind, err), nil)
+				}
+				res.Count("library_client_mounts_of_the_listener", 1)
+			case <-time.After(6 * W):
+				res.Inconclusive = "c06: go9p.Mount of the listener did not return"
+				return res
+			}
 		}
 		select {
 		case err := <-served:
